@@ -27,7 +27,7 @@ ASSUMPTIONS = [
 
 def hook(ls, op):
     if "raised_mid" in ls.flags:
-        if op[0] in ("probe", "probe_hit", "getters"):
+        if op[0] in ("probe", "probe_hit", "probe_twin", "getters"):
             ls.flags.add("_read_after")
         if op[0] in ("insert", "insert_multiple", "remove", "remove_hit", "update", "update_hit", "drop", "remove_all") and "_armed" in ls.flags:
             ls.flags.add("_write_after")
